@@ -1167,7 +1167,6 @@ Error CodeHolder::relocate_to_base(uint64_t base_address, RelocationSummary* sum
     return make_error(Error::kInvalidArgument);
   }
 
-  _base_address = base_address;
   uint32_t address_size = _environment.register_size();
 
   Section* address_table_section = _address_table_section;
